@@ -20,16 +20,19 @@ import random
 
 from .. import common, identlib, seriallib
 from ..gen import edits
-from ..translate import serialflags
+from ..translate import serialflags, serialkeys
 
 PROP = "C12"
-MODULES = ["XpmVerif.Properties.C12"]
+MODULES = ["XpmVerif.Properties.C12", "XpmVerif.Properties.C12Source"]
 seriallib.install_local_findings(PROP)
 
 
 def prove(ctx):
-    msgs = [serialflags.generate(common.REPO, common.LEAN)]
+    msgs = [serialflags.generate(common.REPO, common.LEAN), serialkeys.generate(common.REPO, common.LEAN)]
     ctx.notes.append(f"translator(serialflags): {msgs[0][1]}")
+    ctx.notes.append(f"translator(serialkeys): {msgs[1][1]}")
+    comps = serialkeys.components(common.REPO)
+    ctx.extra_cov["translator_components"] = {"translated": [n for n, ok, _ in comps if ok], "untranslated": [n for n, ok, _ in comps if not ok]}
     common.check_proofs(ctx, MODULES, translate_msgs=msgs)
 
 
@@ -44,7 +47,7 @@ def correspond(ctx):
                 "sub-configuration, tag: same job folder) or unchanged, every step either GENERATE_ONLY, a real run on a machine that lacks resources (the body "
                 "fails after echoing), or a real run; same or other experiment name")
     ctx.assumptions += [
-        "dict keys are strings other than \"type\" (F9 is replayed as a witness only); ints within int64; text is valid UTF-8",
+        "dict keys are strings (the key \"type\" included: such dictionaries are written wrapped, model and code alike); ints within int64; text is valid UTF-8",
         "enum values are identified by module.qualname:name; `is_folder` of a serialised data path is not compared",
         "argument validation on load is the identity on values that were validated when first set (exercised, not proved)",
         "SHA-256 itself is not verified (identifier bytes of model and implementation are compared)",
